@@ -124,7 +124,7 @@ def dkg_actionInitDKGProposal (inEvent : Ev) (p : Payload) (a : Arg) : AOut :=
 
 /-- common shape of the four `action…ConfirmationReceived` callbacks -/
 def dkgReceived (p : Payload) (pid : Int) (createdAt : Time) (dataEmpty : Bool)
-    (awaitSt newSt : Nat) (upd : DkgPart → DkgPart) (updConf : DkgConf → DkgConf := id) : AOut :=
+    (awaitSt newSt : Nat) (upd : DkgPart → DkgPart) : AOut :=
   if pid < 0 || dataEmpty || isZeroTime createdAt then aErr p else
   match p.dkg with
   | none => aPanic p
@@ -134,7 +134,7 @@ def dkgReceived (p : Payload) (pid : Int) (createdAt : Time) (dataEmpty : Bool)
     | some part =>
       if part.status != awaitSt then aErr p else
       let part' := { upd part with status := newSt, updatedAt := createdAt }
-      let dc' := updConf { dc with quorum := setAt dc.quorum pid part', updatedAt := createdAt }
+      let dc' := { dc with quorum := setAt dc.quorum pid part', updatedAt := createdAt }
       aOk { p with dkg := some dc' }
 
 def dkg_actionCommitConfirmationReceived (_e : Ev) (p : Payload) (a : Arg) : AOut :=
@@ -158,8 +158,23 @@ def dkg_actionResponseConfirmationReceived (_e : Ev) (p : Payload) (a : Arg) : A
 def dkg_actionMasterKeyConfirmationReceived (_e : Ev) (p : Payload) (a : Arg) : AOut :=
   match a with
   | .masterKey pid key createdAt pubPoly =>
-    dkgReceived p pid createdAt key.isEmpty 9 10 (fun q => { q with masterKey := key })
-      (fun dc => { dc with pubPolyBz := pubPoly })
+    if pid < 0 || key.isEmpty || isZeroTime createdAt then aErr p else
+    match p.dkg with
+    | none => aPanic p
+    | some dc =>
+      match getAt dc.quorum pid with
+      | none => aErr p
+      | some part =>
+        if part.status != 9 then aErr p else
+        -- a polynomial differing from the one already announced aborts the round
+        if !dc.pubPolyBz.isEmpty && dc.pubPolyBz != pubPoly then
+          let q' := dc.quorum.map (fun q => { q with status := 11, error := some "public polynomial is mismatched" })
+          aOk { p with dkg := some { dc with quorum := q', updatedAt := createdAt } }
+            (some .e_event_dkg_master_key_confirm_canceled_by_error_internal)
+        else
+          let part' := { part with masterKey := key, status := 10, updatedAt := createdAt }
+          let dc' := { dc with quorum := setAt dc.quorum pid part', updatedAt := createdAt, pubPolyBz := pubPoly }
+          aOk { p with dkg := some dc' }
   | _ => aErr p
 
 /-- common shape of the commits / deals / responses auto-validators -/
@@ -277,6 +292,7 @@ def sign_actionPartialSignConfirmationReceived (_e : Ev) (p : Payload) (a : Arg)
     match p.sign with
     | none => aPanic p
     | some sc =>
+      if batchId != sc.batchId then aErr p else
       match getAt sc.quorum pid with
       | none => aErr p
       | some part =>
